@@ -36,13 +36,24 @@ impl EnvConverter {
 
     fn convert_tuple(&self, flds: &[(Rc<str>, Rc<Val>)], w: &mut dyn IOWrite) -> ConvertResult {
         for (name, val) in flds.iter() {
+            // Only the skipped field is left out, the ones after it are
+            // still written.
             if val.is_tuple() {
                 eprintln!("Skipping embedded tuple...");
-                return Ok(());
+                continue;
             }
             if let &Val::Empty = val.as_ref() {
                 eprintln!("Skipping empty variable: {}", name);
-                return Ok(());
+                continue;
+            }
+            match val.as_ref() {
+                Val::List(_) | Val::Env(_) | Val::Constraint(_) => {
+                    // Nothing is written for these, not even `NAME=` which
+                    // would swallow the next line.
+                    eprintln!("Skipping {} variable: {}", val.type_name(), name);
+                    continue;
+                }
+                _ => {}
             }
             write!(w, "{}=", name)?;
             self.write(val, w)?;
